@@ -892,3 +892,29 @@ def reach_consistent(fv, starts, cut_nodes=(), cut_edges=(), facts0=()):
                 nf[n] = val
             work.append((v, frozenset(nf.items())))
     return out
+
+
+def closure_env(ctx, parent_body, closure_def):
+    """{captured variable name: expression in the parent} for a closure created in parent_body"""
+    fv = fnview(ctx, parent_body)
+    caps = closure_def.captures or []
+    for bi in fv.live_blocks():
+        for s in parent_body.stmts(bi):
+            if s.kind == "a" and s.rv.op == "agg" and isinstance(s.rv.a, tuple) and s.rv.a[0] == "closure" \
+               and s.rv.a[1].id == closure_def.id:
+                env = {}
+                for i, op in enumerate(s.rv.ops):
+                    n = caps[i] if i < len(caps) else str(i)
+                    n = n[6:] if n.startswith("_ref__") else n
+                    env[n] = fv.expr(op)
+                return env
+    return {}
+
+
+def subst_captures(e, env):
+    """replace captured-variable symbols ("param", name, -1) by the parent's expressions"""
+    if not isinstance(e, tuple):
+        return e
+    if e and e[0] == "param" and len(e) == 3 and e[2] == -1 and e[1] in env:
+        return env[e[1]]
+    return tuple(subst_captures(x, env) if isinstance(x, tuple) else x for x in e)
